@@ -1,7 +1,8 @@
 (* C09 driver: one case per line on stdin, one result line on stdout, same format as harness/cmd/c09.
 
    reader specs  R ::= vi | vl | fld <type> <old> | fbs <oldhex> | frm <thr> <oldcap> <zhex> <some|none> <outhex>
-                     | rcon | bs | nbt <file|net> <target> | rb0 | rb1
+                     | rcon | bs | nbt <file|net> <target> | nbtf | plug | rb0 | rb1
+                 (targets: any map raw dyn snbt skip ty:<type> st:<shape>; shapes as in driver/c03.ml)
    case lines
      rc <tg> <eof|inj> <piece/piece/...> R      run_src on exactly these pieces
      rx <hex> R                                 ALL compositions of hex x tg in {0,1} (driver-side enumeration)
@@ -9,7 +10,10 @@
      w E                                        Write calls of the encoder, and a failing writer at every offset
    encoder specs E ::= vi <z> | vl <z> | fld <type> <value> | raw <hex> | frm <thr> <id> <datahex> <zhex>
                      | rcon <id> <ty> <plhex> | bs <hex> | nbt <file|net> <namehex> <tree...> | sloppy <hex> <hex>
-   (field types / values: syntax of driver/c06.ml; trees and typed targets: syntax of driver/c01.ml) *)
+   (field types / values: syntax of driver/c06.ml; trees and typed targets: syntax of driver/c01.ml; in a tree of a
+   `w nbt` line a subtree prefixed by R was written by a RawMessage, one prefixed by Y by a *dynbt.Value)
+   result lines: readers that return (n, err) print `err <n>`; rf lines are comma-separated O | E | E<n> | P | F.
+   Inputs longer than 1500 bytes run through run_flat_t on the concatenation (= run_src: C09_src_fast). *)
 exception Parse of string
 
 let nat_of_int i = let r = ref O in for _ = 1 to i do r := S !r done; !r
@@ -169,54 +173,139 @@ let rec pr_dval b (x : dval) : unit =
 let with_buf f = let b = Buffer.create 128 in f b; Buffer.contents b
 let named pr (name, v) = with_buf (fun b -> hexs b name; Buffer.add_char b ' '; pr b v)
 
-(* ---------------------------------------------------------------- readers: a reader is packed with its printer *)
-type reader = Rd : 'a dec * ('a -> string) -> reader
+(* ---------------------------------------------------------------- struct shapes (as c03.ml) *)
+let parse_shape (s : string) : sty =
+  let n = String.length s in
+  let pos = ref 0 in
+  let peek () = if !pos < n then s.[!pos] else '\000' in
+  let eat c = if peek () = c then incr pos else failwith (Printf.sprintf "shape: expected %c at %d in %s" c !pos s) in
+  let until stops =
+    let st = !pos in
+    while !pos < n && not (List.mem s.[!pos] stops) do incr pos done;
+    String.sub s st (!pos - st) in
+  let rec go () : sty =
+    match peek () with
+    | 'b' -> eat 'b'; eat ':'; SB (parse_gty (until [';'; ')'; '}']))
+    | 'p' -> eat 'p'; eat '('; let t = go () in eat ')'; SPtr t
+    | 'l' -> eat 'l'; eat '('; let t = go () in eat ')'; SList t
+    | 'a' ->
+        if !pos + 2 < n && String.sub s !pos 3 = "any" then (pos := !pos + 3; SAny)
+        else begin
+          eat 'a'; let k = until [':'] in eat ':';
+          let t = parse_gty (until [';'; ')'; '}']) in SArr (n_of_int (int_of_string k), t)
+        end
+    | 'm' -> pos := !pos + 3; SMap
+    | 'r' -> pos := !pos + 3; SRaw
+    | 's' ->
+        eat 's'; eat '{';
+        let fs = ref [] in
+        while peek () <> '}' do
+          let name = until ['='] in eat '=';
+          let t = go () in
+          fs := (bytes_of_hex name, t) :: !fs;
+          if peek () = ';' then eat ';'
+        done;
+        eat '}'; SStruct (List.rev !fs)
+    | c -> failwith (Printf.sprintf "shape: unexpected %c at %d in %s" c !pos s)
+  in
+  let t = go () in
+  if !pos <> n then failwith ("shape: trailing " ^ s); t
+
+let rec pr_sval b (x : sval) : unit =
+  let add = Buffer.add_string b in
+  match x with
+  | YB v -> pr_tval b v
+  | YAny None -> add "?nil"
+  | YAny (Some a) -> pr_aval b a
+  | YMap None -> add "?nil"
+  | YMap (Some m) -> pr_aval b (AMap m)
+  | YRaw (id, data) -> add "R"; add (dec_of_n id); add ":"; hexs b data
+  | YPtr None -> add "*nil"
+  | YPtr (Some v) -> add "*"; pr_sval b v
+  | YList l -> add "<"; sep_iter b "," (pr_sval b) l; add ">"
+  | YArr l -> add "("; sep_iter b "," (pr_tval b) l; add ")"
+  | YStruct l -> add "{|"; sep_iter b ";" (pr_sval b) l; add "|}"
+
+let rec nat_add (a : nat) (b : nat) : nat = match a with O -> b | S a' -> S (nat_add a' b)
+
+(* ---------------------------------------------------------------- readers
+   a reader is a function from a source (data+error flag, terminal error, pieces) to its result text:
+   "ok <value> <left>" | "err" | "err <n>" | "panic" | "fuel" *)
+type reader = bool -> n -> n list list -> string
 
 let fmt_of = function "file" -> n_file | "net" -> n_net | s -> failwith ("fmt " ^ s)
+let total_len (ps : n list list) = List.fold_left (fun a p -> a + List.length p) 0 ps
+let big = 1500
+
+(* a decoder, its value printer and (for readers that return (n, err)) the count that goes with an error *)
+let of_dec (d : 'a dec) (pr : 'a -> string) (errn : (n list -> n) option) : reader =
+  fun tg term ps ->
+    let r = if total_len ps > big then run_flat_t term d (List.concat ps) else run_src d tg term ps in
+    match r with
+    | FOk (v, rest) -> Printf.sprintf "ok %s %d" (pr v) (List.length rest)
+    | FErr _ -> (match errn with None -> "err" | Some f -> "err " ^ dec_of_n (f (List.concat ps)))
+    | FPanic _ -> "panic" | FFuel -> "fuel"
+
+let zn (v, n) = dec_of_z v ^ " " ^ dec_of_n n
 
 (* parse a reader spec; nbytes bounds the NBT fuel like driver/c01.ml does *)
 let reader_of (nbytes : int) (toks : string list) : reader =
   match toks with
-  | ["vi"] -> Rd (d_varint, fun (v, n) -> dec_of_z v ^ " " ^ dec_of_n n)
-  | ["vl"] -> Rd (d_varlong, fun (v, n) -> dec_of_z v ^ " " ^ dec_of_n n)
-  | ["rb0"] -> Rd (readByte_orig, dec_of_n)
-  | ["rb1"] -> Rd (readByte_now, dec_of_n)
-  | ["fld"; t; old] -> Rd (d_field fuel6000 (ty_of t) (val_of old), fun (v, n) -> show v ^ " " ^ dec_of_n n)
-  | ["fbs"; old] -> Rd (d_fixedbitset (bytes_of_hex old), fun (v, n) -> hex_of_bytes v ^ " " ^ dec_of_n n)
+  | ["vi"] -> of_dec d_varint zn (Some errn_varint)
+  | ["vl"] -> of_dec d_varlong zn (Some errn_varlong)
+  | ["rb0"] -> of_dec readByte_orig dec_of_n None
+  | ["rb1"] -> of_dec readByte_now dec_of_n None
+  | ["fld"; t; old] ->
+      let t = ty_of t and old = val_of old in
+      of_dec (d_field fuel6000 t old) (fun (v, n) -> show v ^ " " ^ dec_of_n n) (Some (errn fuel6000 t old))
+  | ["fbs"; old] ->
+      of_dec (d_fixedbitset (bytes_of_hex old)) (fun (v, n) -> hex_of_bytes v ^ " " ^ dec_of_n n) (Some errn_fixedbitset)
   | ["frm"; thr; oldcap; z; kind; out] ->
       let zb = bytes_of_hex z and ob = bytes_of_hex out in
       let oracle = fun arg -> if kind = "some" && arg = zb then Some ob else None in
-      Rd (d_frame oracle (z_of_dec thr) stale (mk_rstate (z_of_int 77) (n_of_dec oldcap)),
-          fun r -> let ((id, cap), data) = rstate_view r in
-                   Printf.sprintf "%s %s %s" (dec_of_z id) (dec_of_n cap) (hex_of_bytes data))
-  | ["rcon"] -> Rd (d_rcon, fun ((id, ty), pl) -> Printf.sprintf "%s %s %s" (dec_of_z id) (dec_of_z ty) (hex_of_bytes pl))
-  | ["bs"] -> Rd (d_bits [], fun r -> let (d, n) = d_bits_data r in
-                                     String.concat "," (List.map dec_of_n d) ^ " " ^ dec_of_n n)
+      of_dec (d_frame oracle (z_of_dec thr) stale (mk_rstate (z_of_int 77) (n_of_dec oldcap)))
+        (fun r -> let ((id, cap), data) = rstate_view r in
+                  Printf.sprintf "%s %s %s" (dec_of_z id) (dec_of_n cap) (hex_of_bytes data)) None
+  | ["rcon"] -> of_dec d_rcon (fun ((id, ty), pl) -> Printf.sprintf "%s %s %s" (dec_of_z id) (dec_of_z ty) (hex_of_bytes pl)) None
+  | ["bs"] -> of_dec (d_bits []) (fun r -> let (d, n) = d_bits_data r in
+                                          String.concat "," (List.map dec_of_n d) ^ " " ^ dec_of_n n) (Some errn_bits)
+  | ["plug"] ->
+      (fun tg term ps ->
+         let ((data, n), e) = plugin_read tg term ps in
+         match e with
+         | None -> Printf.sprintf "ok %s %s 0" (hex_of_bytes data) (dec_of_n n)
+         | Some _ -> "err " ^ dec_of_n n)
+  | ["nbtf"] ->
+      let fuel = nat_of_int (nbytes + 2) in
+      of_dec (d_nbtfield_any fuel)
+        (fun (v, n) -> (match v with None -> "?nil" | Some a -> with_buf (fun b -> pr_aval b a)) ^ " " ^ dec_of_n n)
+        (Some (nbtfield_errn_any fuel))
   | ["nbt"; f; target] ->
       let f = fmt_of f and fuel = nat_of_int (nbytes + 2) in
       (match target with
-       | "any" -> Rd (d_nbt_any f fuel, named pr_aval)
-       | "map" -> Rd (d_nbt_map f fuel, named pr_aval)
-       | "raw" -> Rd (d_nbt_raw f fuel, named (fun b (id, data) -> Buffer.add_string b ("R" ^ dec_of_n id ^ ":"); hexs b data))
-       | "dyn" -> Rd (d_nbt_dyn f fuel, named pr_dval)
-       | "snbt" -> Rd (d_nbt_snbt f fuel, named (fun b () -> Buffer.add_char b '-'))
-       | "skip" -> Rd (d_nbt_skip f fuel, named (fun b () -> Buffer.add_char b '-'))
+       | "any" -> of_dec (d_nbt_any f fuel) (named pr_aval) None
+       | "map" -> of_dec (d_nbt_map f fuel) (named pr_aval) None
+       | "raw" -> of_dec (d_nbt_raw f fuel) (named (fun b (id, data) -> Buffer.add_string b ("R" ^ dec_of_n id ^ ":"); hexs b data)) None
+       | "dyn" -> of_dec (d_nbt_dyn f fuel) (named pr_dval) None
+       | "snbt" -> of_dec (d_nbt_snbt f fuel) (named (fun b () -> Buffer.add_char b '-')) None
+       | "skip" -> of_dec (d_nbt_skip f fuel) (named (fun b () -> Buffer.add_char b '-')) None
        | _ when String.length target > 3 && String.sub target 0 3 = "ty:" ->
-           Rd (d_nbt_ty f fuel (parse_gty (String.sub target 3 (String.length target - 3))), named pr_tval)
+           of_dec (d_nbt_ty f fuel (parse_gty (String.sub target 3 (String.length target - 3)))) (named pr_tval) None
+       | _ when String.length target > 3 && String.sub target 0 3 = "st:" ->
+           let sh = parse_shape (String.sub target 3 (String.length target - 3)) in
+           of_dec (d_nbt_st f (nat_add (st_depth sh) fuel) sh (st_zero sh)) (named pr_sval) None
        | _ -> failwith "target")
   | _ -> failwith "reader spec"
 
-let show_res (pr : 'a -> string) (r : 'a fres) : string =
-  match r with
-  | FOk (v, rest) -> Printf.sprintf "ok %s %d" (pr v) (List.length rest)
-  | FErr _ -> "err" | FPanic _ -> "panic" | FFuel -> "fuel"
-let class_char (r : 'a fres) : char =
-  match r with FOk _ -> 'O' | FErr _ -> 'E' | FPanic _ -> 'P' | FFuel -> 'F'
+let rf_token (text : string) : string =
+  if text = "err" then "E"
+  else if String.length text > 4 && String.sub text 0 4 = "err " then "E" ^ String.sub text 4 (String.length text - 4)
+  else if String.length text >= 2 && String.sub text 0 2 = "ok" then "O"
+  else if text = "panic" then "P" else "F"
 
 let term_of = function "eof" -> n_of_int 1 | "inj" -> n_of_int 99 | s -> failwith ("term " ^ s)
 let pieces_of (s : string) : n list list =
   if s = "." then [] else List.map bytes_of_hex (String.split_on_char '/' s)
-let total_len (ps : n list list) = List.fold_left (fun a p -> a + List.length p) 0 ps
 
 let rec firstn k l = if k = 0 then [] else match l with [] -> [] | x :: t -> x :: firstn (k - 1) t
 let rec skipn k l = if k = 0 then l else match l with [] -> [] | _ :: t -> skipn (k - 1) t
@@ -232,6 +321,16 @@ let compose (s : n list) (mask : int) : n list list =
   go 0 [] [] s
 
 (* ---------------------------------------------------------------- encoders *)
+let rec parse_wtree (toks : string list) : wtree * string list =
+  match toks with
+  | "R" :: r -> let (t, r') = parse_tree r in (WRaw t, r')
+  | "Y" :: r -> let (t, r') = parse_tree r in (dyn_w t, r')
+  | "[" :: eid :: n :: r -> let (xs, r') = take_n parse_wtree (int_of_string n) r in (WList (n_of_int (int_of_string eid), xs), r')
+  | "{" :: n :: r ->
+      let entry = function k :: r -> let (t, r') = parse_wtree r in ((bytes_of_hex k, t), r') | [] -> failwith "{" in
+      let (xs, r') = take_n entry (int_of_string n) r in (WComp xs, r')
+  | _ -> let (t, r') = parse_tree toks in (WLeaf t, r')
+
 let calls_of (toks : string list) : wcall list =
   match toks with
   | ["vi"; v] -> varint_calls (z_of_dec v)
@@ -243,7 +342,10 @@ let calls_of (toks : string list) : wcall list =
       pack_calls (fun _ -> zb) (z_of_dec thr) stale (z_of_dec id, bytes_of_hex data)
   | ["rcon"; id; ty; pl] -> rcon_calls (z_of_dec id) (z_of_dec ty) (bytes_of_hex pl)
   | ["bs"; h] -> bs_calls (bits_store (bytes_of_hex h))
-  | "nbt" :: f :: name :: tree -> let (t, _) = parse_tree tree in nbt_doc_calls (fmt_of f) (bytes_of_hex name) t
+  | "nbt" :: f :: name :: tree ->
+      if List.mem "R" tree || List.mem "Y" tree then
+        let (w, _) = parse_wtree tree in wt_doc_calls (fmt_of f) (bytes_of_hex name) w
+      else let (t, _) = parse_tree tree in nbt_doc_calls (fmt_of f) (bytes_of_hex name) t
   | ["sloppy"; a; b] -> sloppy_calls (bytes_of_hex a) (bytes_of_hex b)
   | _ -> failwith "encoder spec"
 
@@ -252,35 +354,36 @@ let () = iter_lines (fun line ->
     match split_ws line with
     | "rc" :: tg :: term :: pieces :: spec ->
         let ps = pieces_of pieces in
-        let Rd (d, pr) = reader_of (total_len ps) spec in
-        Printf.printf "rc %s\n" (show_res pr (run_src d (tg = "1") (term_of term) ps))
+        let rd = reader_of (total_len ps) spec in
+        Printf.printf "rc %s\n" (rd (tg = "1") (term_of term) ps)
     | "rx" :: h :: spec ->
         let s = bytes_of_hex h in
         let len = List.length s in
-        let Rd (d, pr) = reader_of len spec in
-        let flat = show_res pr (run_flat d s) in
+        let rd = reader_of len spec in
+        let eof = n_of_int 1 in
+        let flat = rd false eof (if s = [] then [] else [s]) in
         let count = ref 0 and bad = ref "" in
         let nmask = if len <= 1 then 1 else 1 lsl (len - 1) in
         for mask = 0 to nmask - 1 do
           let ps = compose s mask in
           List.iter (fun tg ->
             incr count;
-            let r = show_res pr (run_src d tg (n_of_int 1) ps) in
+            let r = rd tg eof ps in
             if r <> flat && !bad = "" then bad := Printf.sprintf " diff=%d,%b" mask tg) [false; true]
         done;
         Printf.printf "rx %s all=%d%s\n" flat !count !bad
     | "rf" :: m :: tg :: term :: h :: spec ->
         let s = bytes_of_hex h in
         let len = List.length s in
-        let Rd (d, _) = reader_of len spec in
+        let rd = reader_of len spec in
         let m = n_of_dec m and tg = (tg = "1") and term = term_of term in
-        let b = Buffer.create (len + 1) in
+        let toks = ref [] in
         for k = 0 to len do
           let p = firstn k s in
           let ps = if m = N0 then (if p = [] then [] else [p]) else uniform m p in
-          Buffer.add_char b (class_char (run_src d tg term ps))
+          toks := rf_token (rd tg term ps) :: !toks
         done;
-        Printf.printf "rf %s\n" (Buffer.contents b)
+        Printf.printf "rf %s\n" (String.concat "," (List.rev !toks))
     | "w" :: spec ->
         let ws = calls_of spec in
         let img = image ws in
